@@ -36,6 +36,22 @@ func init() {
 						emit(sx.L(c, sx.N(r.Intn(3)), sx.N(1+r.Intn(700))))
 					}
 				})
+				if p.name == "http" {
+					// bodies beyond any cap an implementation might put on what it keeps (1 MiB is the HTTP/2 assembler's):
+					// what is not kept was still consumed, and the sizes still add up
+					big := bytes.Repeat([]byte("0123456789abcdef"), 96000) // 1.5 MB
+					host := sx.L(sx.L(sx.S("Host"), sx.S("host.example")))
+					for _, fr := range []string{"cl", "chunked"} {
+						up := sx.L(sx.A("ex"), sx.L(sx.A("req"), sx.S("POST"), sx.S("/upload"), sx.N(1), host, sx.A(fr), sx.B(big)),
+							sx.L(sx.A("resp"), sx.N(201), sx.S("Created"), sx.N(1), sx.L(), sx.A("cl"), sx.B([]byte("ok"))))
+						down := sx.L(sx.A("ex"), sx.L(sx.A("req"), sx.S("GET"), sx.S("/download"), sx.N(1), host, sx.A("none"), sx.B(nil)),
+							sx.L(sx.A("resp"), sx.N(200), sx.S("OK"), sx.N(1), sx.L(), sx.A(fr), sx.B(big)))
+						after := sx.L(sx.A("ex"), sx.L(sx.A("req"), sx.S("GET"), sx.S("/after"), sx.N(1), host, sx.A("none"), sx.B(nil)),
+							sx.L(sx.A("resp"), sx.N(200), sx.S("OK"), sx.N(1), sx.L(), sx.A("cl"), sx.B([]byte("ok"))))
+						emit(sx.L(sx.L(up, after), sx.N(0), sx.N(1)))
+						emit(sx.L(sx.L(down, after), sx.N(2), sx.N(700)))
+					}
+				}
 			},
 			Run: func(c sx.Sx) sx.Sx { return runProgressConv(p.name, c) },
 		}
